@@ -158,6 +158,7 @@ def make_track(kind: str = "video", timescale: Optional[int] = None,
                track_id: int = 1, start_number: int = 1, seq_step: int = 1, payload_size: int = 200, seed: int = 0,
                payload_bytes: Optional[Sequence[Optional[int]]] = None,
                largesize: Sequence[str] = (), moof_pssh: Union[bool, str] = False,
+               senc_override: Union[bool, int] = False, aux_info_type: Union[bool, str] = False,
                with_mehd: bool = True, traf_order: str = "trun_first",
                sample_durations_in: str = "trun", trun_data_offset: bool = True,
                trun_first_sample_flags: Optional[bool] = None, trun_cto: bool = False,
@@ -194,6 +195,11 @@ def make_track(kind: str = "video", timescale: Optional[int] = None,
         'explicit-mdat'    tfhd base_data_offset = absolute file position of the first payload byte and a
                            trun *without* data_offset field (clear tracks only: saio offsets are unsigned)
     payload_size         average sample size in bytes (sizes are pseudo-random in [½, 1½]·payload_size)
+    senc_override        senc flag 0x1 ("override track encryption defaults"): the senc (and a stored PIFF
+                         clone) carries AlgorithmID(3) IV_size(1) KID(16) in front of sample_count.  True: the
+                         IV size of tenc; 8 or 16: the sample entries use that IV size (may differ from tenc)
+    aux_info_type        saiz and saio carry aux_info_type 'cenc' + aux_info_type_parameter 0 (flags 0x1);
+                         'saiz' / 'saio': only that box
     largesize            box types written with the 64-bit `largesize` header form (size field 1 + 8 byte
                          size): any of 'mdat', 'moof'
     moof_pssh            a version-1 `pssh` box (system id = Common PSSH, one KID) as a child of every moof:
@@ -325,10 +331,11 @@ def make_track(kind: str = "video", timescale: Optional[int] = None,
             tfdt = full("tfdt", v, 0, u64(decode_time) if v else u32(decode_time))
         extra = box("free", rng.randbytes(20)) if extra_traf_box else b""
 
+        entry_iv = senc_override if (senc_override and senc_override is not True) else iv_size
         enc_entries: list[bytes] = []
         if encrypted:
             for i in range(n):
-                e = rng.randbytes(iv_size)
+                e = rng.randbytes(entry_iv)
                 if subsamples:
                     clear = min(sizes[i], 5 + rng.randrange(0, 8))
                     e += u16(1) + u16(clear) + u32(sizes[i] - clear)
@@ -340,9 +347,15 @@ def make_track(kind: str = "video", timescale: Optional[int] = None,
                 saiz = full("saiz", 0, 0, u8(lens[0]), u32(n))
             else:
                 saiz = full("saiz", 0, 0, u8(0), u32(n), bytes(lens))
-            saio = full("saio", saio_version, 0, u32(1),
+            aux = u32(0x63656e63) + u32(0)
+            if aux_info_type in (True, "saiz"):
+                saiz = full("saiz", saiz[8], 1, aux, saiz[12:])
+            saio_flags = 1 if aux_info_type in (True, "saio") else 0
+            saio = full("saio", saio_version, saio_flags, aux if saio_flags else b"", u32(1),
                         u64(saio_offset) if saio_version else u32(saio_offset))
-            senc = full("senc", 0, 2 if subsamples else 0, u32(n), *enc_entries)
+            sflags = (2 if subsamples else 0) | (1 if senc_override else 0)
+            ovr = (b"\0\0\1" + u8(entry_iv) + kid) if senc_override else b""
+            senc = full("senc", 0, sflags, ovr, u32(n), *enc_entries)
             return saiz, saio, senc
 
         def moof_box(base_value: int, data_offset: int, saio_offset: int) -> tuple[bytes, int]:
@@ -363,7 +376,7 @@ def make_track(kind: str = "video", timescale: Optional[int] = None,
                 avail = {"saiz": saiz, "saio": saio, "senc": senc, "piff": piff, "trun": trun_box(data_offset)}
                 parts += [avail[n] for n in names]
                 idx = parts.index(senc)
-                senc_at = 8 + 16 + 8 + sum(len(p) for p in parts[:idx]) + 16   # moof hdr, mfhd, traf hdr, …, senc hdr+vf+count
+                senc_at = 8 + 16 + 8 + sum(len(p) for p in parts[:idx]) + 16 + (20 if senc_override else 0)   # moof hdr, mfhd, traf hdr, …, senc hdr+vf+[override]+count
             else:
                 parts.append(trun_box(data_offset))
             traf = box("traf", *parts)
